@@ -122,3 +122,68 @@ func execKin(c kinCase, s core.Source) (res core.Result) {
 	res.NonTrivial = len(distinct) >= 2
 	return
 }
+
+// ---------------------------------------------------------------- long documents of distinct literals
+
+// Documents with dozens to hundreds of items that are all different literals of one kind (strings, runes,
+// complex numbers, integers) or of all kinds in turn: whatever the parser remembers per literal must keep up.
+type longDocCase struct {
+	Kind    string `json:"kind"` // string rune complex int mixed
+	N       int    `json:"n"`
+	Context string `json:"context"`
+	Multi   bool   `json:"multi"`
+	Break   int    `json:"break,omitempty"` // C12: 1-based item in front of which an illegal character is put (0: none)
+}
+
+func genLongDoc(withBreak bool) func(core.Source) longDocCase {
+	return func(s core.Source) longDocCase {
+		c := longDocCase{Kind: core.Pick(s, []string{"string", "rune", "complex", "int", "mixed"}, "kind"), Context: core.Pick(s, []string{"List", "Array", "Stack", "Set"}, "context"), Multi: s.Choose(2, "multi") == 1}
+		c.N = []int{17, 33, 60, 64, 65, 66, 100, 129, 200, 300}[s.Choose(10, "n")]
+		if withBreak && s.Choose(2, "break") == 1 {
+			c.Break = 1 + s.Choose(c.N, "at")
+		}
+		return c
+	}
+}
+
+func longItem(kind string, i int) kinItem {
+	switch kind {
+	case "string":
+		return kinStr("s" + strconv.Itoa(i))
+	case "rune":
+		return kinRune(rune(0x100 + i))
+	case "complex":
+		return kinItem{"(" + strconv.Itoa(i) + ".0+1.0i)", model.VComplex(complex(float64(i), 1))}
+	case "int":
+		return kinInt(int64(i) * 1000003)
+	}
+	return longItem([]string{"string", "rune", "complex", "int"}[i%4], i)
+}
+
+func (c longDocCase) doc() (cdcngen.Doc, int) {
+	var lits []string
+	var dens []model.Val
+	for i := 0; i < c.N; i++ {
+		it := longItem(c.Kind, i)
+		lits = append(lits, it.lit)
+		dens = append(dens, it.den)
+	}
+	if c.Break > 0 {
+		lits[c.Break-1] = "$" + lits[c.Break-1]
+	}
+	text := "[" + strings.Join(lits, ", ") + "](" + c.Context + ")\n"
+	if c.Multi {
+		text = "[\n    " + strings.Join(lits, "\n    ") + "\n](" + c.Context + ")\n"
+	}
+	return cdcngen.Doc{Text: text, Den: model.VColl(c.Context, dens...)}, c.N
+}
+
+func execLongDoc(c longDocCase, s core.Source) (res core.Result) {
+	d, _ := c.doc()
+	// the same text several times: the outcome must not depend on anything but the text
+	for round := 0; round < 2 && res.Violation == nil; round++ {
+		res = execDoc(docCase{Doc: d, Classes: []string{"long-" + c.Kind}}, s)
+	}
+	res.NonTrivial = true
+	return
+}
